@@ -8,6 +8,7 @@ import (
 	"bytes"
 	"encoding/json"
 	"fmt"
+	"os"
 	"strings"
 
 	"github.com/pion/rtcp"
@@ -22,8 +23,19 @@ func runOracle(prop string, seed uint64, n int, maxFail int) int {
 		if fails >= maxFail {
 			return
 		}
-		res := execOp(op)
-		if why := propertyFails(prop, op, res); why != "" {
+		res, done := execWatched(op)
+		why := ""
+		if done {
+			why = propertyFails(prop, op, res)
+		} else {
+			why = "operation did not return within " + opTimeout.String() + " (loops without bound)"
+		}
+		if !done {
+			b, _ := json.Marshal(map[string]string{"op": op, "result": res, "why": why})
+			fmt.Println(string(b))
+			os.Exit(3)
+		}
+		if why != "" {
 			fails++
 			if oracleJSON {
 				b, _ := json.Marshal(map[string]string{"op": op, "result": clip(res, 4000), "why": why})
